@@ -22,16 +22,18 @@ ID = "C06"
 LEAN_MODULE = "LiquidVerif.Props.C06"
 TRANSLATE = False
 RULE = (
-    "stream chains: every chain of <=2 (quick) / <=3 (thorough) repeating layers over {for, tablerow, include-for, "
-    "include-with-array, render-for} with every boundary {none, render, include, macro call} between layers, lengths "
-    "from a grid (quick) / 0..12 (depth<=2, thorough), limits at product-1, product, product+1 and the inner/outer "
-    "lengths (exhaustive over that grid), sync and async alternating; stream random: random trees of dynamic depth <=4 "
-    "with several children per block, if/unless/capture blocks, for-else, range/limit/offset/reversed sources, "
-    "tablerow cols, acyclic partial pools, macro definitions/calls, limits 1..200 biased to the products present "
-    "(plus None and 0), context_depth_limit 30 or small; stream recursion: self/mutually recursive "
-    "include/render/macro-in-partial families under small context_depth_limit; stream regress: the witnesses of the "
-    "fixed carry defects. Non-trivial: the unlimited render reaches a block nested in >=2 repeating constructs of "
-    "length >=2 (or, for recursion, actually recurses), i.e. the limit decision depends on a product."
+    "A case is a nest + partial pool + a list of limits; every limit is rendered by the real engine and by the model. "
+    "stream chains (exhaustive over its grid): every chain of <=2 (quick) / <=3 (thorough) repeating layers over {for, "
+    "tablerow, include-for, include-with-array (depth 1; deeper in thorough), render-for} with a boundary {none, render, include, macro call} after each "
+    "layer, lengths 0..12 at depth 1, {0,1,2,3,12} (quick) / 0..12 (thorough) at depth 2, {0,1,2,3,6} at depth 3 (thorough), "
+    "limits product-1, product, product+1, each length and the partial products (1..200), sync and async alternating; "
+    "stream random: random trees of dynamic depth <=4 with several children per block, if/unless/case/capture blocks, "
+    "for-else, range/limit/offset/reversed sources, tablerow cols, acyclic partial pools, include/render in every binding "
+    "mode, macro definitions/calls (in loops, before definition, shared through include), 2-4 limits from 1..200 biased to "
+    "the products present (plus None and 0), context_depth_limit 30 or 4..10; stream recursion: self/mutually recursive "
+    "include/render/macro-in-partial families under context_depth_limit 4..8; stream regress: the witnesses of the fixed "
+    "carry defects and their neighbours. Non-trivial: the unlimited render reaches a block nested in >=2 repeating "
+    "constructs of length >=2 (recursion: >=3 executions or a ContextDepthError), i.e. the limit decision depends on a product."
 )
 TRUSTED_BASE = [
     "Lean 4.33 kernel; axioms subset of {propext, Classical.choice, Quot.sound}",
@@ -505,7 +507,9 @@ class ChainStream(NestStream):
         for d, grid in ((1, grid1), (2, grid2), (3, grid3)):
             if not grid:
                 continue
-            kindset = REPEATING if d <= 2 else ("for", "tablerow", "include-for", "render-for")
+            # include-with-array takes the same branch as include-for (the tag does not distinguish): all depths only in
+            # the thorough tier, depth 1 always
+            kindset = REPEATING if (d == 1 or (d == 2 and thorough)) else ("for", "tablerow", "include-for", "render-for")
             for kinds in itertools.product(kindset, repeat=d):
                 bsets = itertools.product(BOUNDARIES, repeat=d) if d <= 2 else [b + ("none",) for b in itertools.product(("none", "render", "call"), repeat=2)]
                 for bs in bsets:
@@ -678,7 +682,7 @@ class RandomStream(NestStream):
 
     def cases(self, ctx):
         rng = ctx.rng_for("random")
-        n = ctx.scale(1500, 20000)
+        n = ctx.scale(1200, 12000)
         out = []
         while len(out) < n:
             c = gen_random_case(rng, is_async=bool(len(out) % 3 == 0))
